@@ -47,6 +47,14 @@ var AllScenarios = func() []Scenario {
 			}
 		}
 	}
+	// replayed PRECOMMIT justification (J=1), combined with the leader modes that put a proposal on the table
+	for _, bump := range []bool{false, true} {
+		for _, l := range []int{8, 1, 3} {
+			for _, x := range pqs {
+				out = append(out, Scenario{Bump: bump, P: x.p, Q1: x.q1, Q2: x.q2, L: l, J: 1})
+			}
+		}
+	}
 	return out
 }()
 
@@ -158,7 +166,7 @@ func OpsFor(in Info, reduced bool) []int {
 		if s.L >= 1 && s.L <= 2 && s.L-1 >= in.NCerts {
 			continue
 		}
-		if s.L == 8 && in.NCerts == 0 {
+		if (s.L == 8 || s.J > 0) && in.NCerts == 0 {
 			continue
 		}
 		if s.L >= 5 && (s.L-5 >= in.NCerts || reduced) {
